@@ -299,7 +299,7 @@ func arithExcluded(c Case, ns []refnum.Num, e expect, s shape) string {
 		// NormalizeNumber turns (ratio, bignum) into long-floats (mod and rem: these were covered by
 		// mod-rem-ratio-float while C05-F8 was open)
 		return "ratio-bignum-longfloat"
-	case in(c.Op, "floor", "mod") && s.allFix && len(ns) == 2 && ns[1].R.Sign() < 0 && h.ExclOn("floor-neg-divisor"):
+	case c.Op == "floor" && s.allFix && len(ns) == 2 && ns[1].R.Sign() < 0 && h.ExclOn("floor-neg-divisor"):
 		return "floor-neg-divisor"
 	case in(c.Op, "floor", "ceiling", "truncate", "round", "mod", "rem") && s.allFix && len(ns) == 2 && h.ExclOn("div-fixnum-extreme") &&
 		(isMin(ns[0]) || isMin(ns[1]) || (c.Op == "round" && (big62(ns[0]) || big62(ns[1])))):
@@ -625,7 +625,8 @@ func runCmp(c Case) *h.Result {
 		res.Skip = "cmp-through-float"
 		return res
 	}
-	if ratioBig(ns) && h.ExclOn("ratio-bignum-longfloat") {
+	// C05-F5 reaches the comparisons only while they go through NormalizeNumber (C05-F6 open)
+	if ratioBig(ns) && h.ExclOn("ratio-bignum-longfloat") && h.ExclOn("cmp-through-float") {
 		res.Skip = "ratio-bignum-longfloat"
 		return res
 	}
@@ -700,7 +701,8 @@ func runTri(c Case) *h.Result {
 		res.Skip = "cmp-through-float"
 		return res
 	}
-	if ratioBig(ns) && h.ExclOn("ratio-bignum-longfloat") {
+	// C05-F5 reaches the comparisons only while they go through NormalizeNumber (C05-F6 open)
+	if ratioBig(ns) && h.ExclOn("ratio-bignum-longfloat") && h.ExclOn("cmp-through-float") {
 		res.Skip = "ratio-bignum-longfloat"
 		return res
 	}
